@@ -137,6 +137,6 @@ func isBytesBuffer(r io.Reader) bool {
 //
 //@ func NewStartTLS(conn net.Conn, options *Options) (result *Client, err error)
 //@   props C17:post,pre@call
-//@   ensures err == nil ==> __called("Client.startTLS") && !__failed("Client.startTLS") && __called("Client.State")
+//@   ensures err == nil ==> __called("Client.startTLS") && !__failed("Client.startTLS") && __called("Client.State") && __result("Client.State") == int(imap.ConnStateNotAuthenticated)
 //@   ensures err != nil ==> result == nil
 var _ net.Conn
